@@ -197,6 +197,7 @@ func c05(r *core.Run) {
 	r.Floor("C05.INCLUSIVE", "admission sites", len(adms), 4)
 
 	c05SelfConf(r)
+	c05IDFresh(r)
 }
 
 // byte range of a Slice expression with constant bounds ("lo:hi", hi empty for open)
@@ -558,4 +559,96 @@ func c05IndependentMatching(r *core.Run) {
 		r.Check(bad == "", "C05.SELFCONF", core.FuncName(fn)+"#requirements-decided-independently", fn.Pos(), "each requirement is looked up on its own (no bookkeeping shared between requirements decides a match)", "the matcher consults ("+bad+") a table it fills while matching other requirements: one requirement can use up the profile entry another one needs, so a function no longer matches the signature generated from itself")
 	}
 	r.Floor("C05.SELFCONF", "requirement matchers (score, matched…) over a []string of requirements", n, 2)
+}
+
+// c05IDFresh: `sfw index` generates the ID under which a signature is stored. Adding a signature whose ID already
+// exists is an update: the earlier signature's blob and index entries are replaced, so the function indexed first
+// is no longer found. A generated ID must therefore differ (a) between the signatures of one run — it includes a
+// value that changes per iteration — and (b) from what earlier runs stored — it includes a value read from the
+// opened database, a hash of the content, or a random value; the clock alone repeats within a second.
+func c05IDFresh(r *core.Run) {
+	p := r.P
+	n := 0
+	for _, fn := range p.FuncsIn("internal/cli") {
+		core.InstrsOf(fn, func(in ssa.Instruction) {
+			st, ok := in.(*ssa.Store)
+			if !ok {
+				return
+			}
+			fa, ok := st.Addr.(*ssa.FieldAddr)
+			if !ok || !core.IsNamed(fa.X.Type(), detPath(p), "Signature") || core.FieldName(fa.X.Type(), fa.Field) != "ID" {
+				return
+			}
+			if _, isConst := st.Val.(*ssa.Const); isConst {
+				return
+			}
+			n++
+			perIter, state, how := false, false, ""
+			seen := map[ssa.Value]bool{}
+			var walk func(v ssa.Value, d int)
+			walk = func(v ssa.Value, d int) {
+				if v == nil || seen[v] || d > 30 || len(seen) > 400 {
+					return
+				}
+				seen[v] = true
+				switch x := v.(type) {
+				case *ssa.Phi:
+					if core.LoopHeaderOf(x.Block()) == x.Block() || core.LoopHeaderOf(x.Block()) != nil {
+						perIter = true
+					}
+					for _, e := range x.Edges {
+						walk(e, d+1)
+					}
+					return
+				case *ssa.Call:
+					name := core.CalleeName(&x.Call)
+					if g := core.StaticCallee(&x.Call); g != nil && g.Signature.Recv() != nil {
+						rt := core.Deref(g.Signature.Recv().Type()).String()
+						if strings.Contains(rt, "/pkg/storage/") {
+							state, how = true, "a value read from the opened database ("+core.FuncName(g)+")"
+						}
+					}
+					if strings.HasPrefix(name, "crypto/rand.") || strings.HasPrefix(name, "crypto/sha256.") || strings.Contains(name, "uuid") {
+						state, how = true, "a random or content-derived value ("+name+")"
+					}
+					if name == "fmt.Sprintf" || name == "fmt.Sprint" {
+						if elems, ok := varargElems(x.Call.Args[len(x.Call.Args)-1]); ok {
+							for _, e := range elems {
+								walk(core.Unwrap(e), d+1)
+							}
+						}
+						return
+					}
+					for _, a := range core.CallArgs(&x.Call) {
+						walk(a, d+1)
+					}
+					return
+				case *ssa.UnOp:
+					if x.Op == token.MUL {
+						if _, name, ok := fieldLoadBy(x, func(t types.Type) bool { return true }); ok && (name == "TopologyHash" || name == "FuzzyHash") {
+							state, how = true, "the content hash "+name
+						}
+						if a, ok := x.X.(*ssa.Alloc); ok {
+							for _, s2 := range core.StoresTo(a) {
+								walk(s2.Val, d+1)
+							}
+							return
+						}
+					}
+				}
+				if in2, ok := v.(ssa.Instruction); ok {
+					for _, op := range in2.Operands(nil) {
+						if op != nil && *op != nil {
+							walk(*op, d+1)
+						}
+					}
+				}
+			}
+			walk(st.Val, 0)
+			fnm := core.FuncName(fn)
+			r.Check(perIter, "C05.IDFRESH", fnm+"#id-differs-within-run", st.Pos(), "the generated ID includes a value that changes with every indexed function", "the generated signature ID includes nothing that changes per indexed function: the signatures of one run overwrite each other")
+			r.Check(state, "C05.IDFRESH", fnm+"#id-differs-across-runs", st.Pos(), "the generated ID includes "+how, "the generated signature ID is built from the clock (one-second resolution), the category and the position in the batch only: a second `sfw index` run into the same database within the same second reuses the IDs of the first, AddSignatures treats them as updates and the functions indexed first are no longer found")
+		})
+	}
+	r.Floor("C05.IDFRESH", "generated signature IDs in the index command", n, 2)
 }
